@@ -6,6 +6,7 @@ from sa import cfg as cfgmod
 from sa import effects
 from sa import minieval
 from sa import model
+from sa import norm
 from sa.model import AnalysisError
 
 TITLE = 'normalisation, own-layer, ask_parent gating, exclusivity, merge'
@@ -216,6 +217,16 @@ def check_get_data(repo, rep, mod):
                             isinstance(f.value, ast.Name) and
                             f.value.id in pnames)):
                     parent_calls.append((nd, c))
+                    continue
+                # the parent handed to a helper that does the walk
+                for a in list(c.args) + [k.value for k in c.keywords]:
+                    if uses_parent(a) is not None or (
+                            isinstance(a, ast.Name) and a.id in pnames):
+                        d = repo.resolve(mod, f, model.scope_locals(m))
+                        if isinstance(repo.lookup(d) if d else None,
+                                      model.FuncInfo):
+                            parent_calls.append((nd, c))
+                            break
         rep.ob('R17c', m.key + '/walks-parents', bool(parent_calls),
                '%s.get_data never consults the parent chain' % cname,
                loc=mod.loc(m.node))
@@ -248,6 +259,92 @@ def check_get_data(repo, rep, mod):
                '`default` parameter (null)', loc=mod.loc(m.node))
 
 
+def _walk_step(body, cursor, excl, assume):
+    """Abstractly run one iteration of the layer walk under the assumption
+    `excl == assume`: the set of possible values of the cursor afterwards
+    ('same', 'parent', 'none', 'other') or 'exit' (break / return)."""
+    def truth(test):
+        if isinstance(test, ast.Name) and test.id == excl:
+            return assume
+        if isinstance(test, ast.UnaryOp) and isinstance(test.op, ast.Not):
+            t = truth(test.operand)
+            return None if t is None else not t
+        if isinstance(test, ast.Compare) and len(test.ops) == 1 and \
+                isinstance(test.left, ast.Name) and test.left.id == excl \
+                and isinstance(test.comparators[0], ast.Constant) and \
+                isinstance(test.comparators[0].value, bool):
+            v = test.comparators[0].value
+            if isinstance(test.ops[0], (ast.Is, ast.Eq)):
+                return assume == v
+            if isinstance(test.ops[0], (ast.IsNot, ast.NotEq)):
+                return assume != v
+        return None
+
+    def value(e, cur):
+        if isinstance(e, ast.Constant) and e.value is None:
+            return {'none'}
+        if isinstance(e, ast.Name) and e.id == cursor:
+            return cur
+        if isinstance(e, ast.Attribute) and e.attr == 'parent' and \
+                isinstance(e.value, ast.Name) and e.value.id == cursor:
+            return {'parent'} if cur == {'same'} else {'other'}
+        if isinstance(e, ast.IfExp):
+            t = truth(e.test)
+            if t is True:
+                return value(e.body, cur)
+            if t is False:
+                return value(e.orelse, cur)
+            return value(e.body, cur) | value(e.orelse, cur)
+        if isinstance(e, ast.BoolOp) and len(e.values) == 2:
+            # `not excl and p.parent or None` style is too clever: other
+            return {'other'}
+        return {'other'}
+
+    def block(stmts, cur):
+        """-> (cursor values on fall-through, set of exits)"""
+        out = set()
+        for st in stmts:
+            if cur is None:
+                break
+            if isinstance(st, (ast.Break, ast.Return, ast.Raise)):
+                out.add('exit')
+                cur = None
+                break
+            if isinstance(st, ast.Continue):
+                out |= cur
+                cur = None
+                break
+            if isinstance(st, ast.Assign) and any(
+                    isinstance(t, ast.Name) and t.id == cursor
+                    for t in st.targets):
+                cur = value(st.value, cur)
+                continue
+            if isinstance(st, ast.If):
+                t = truth(st.test)
+                res = []
+                if t is not False:
+                    res.append(block(st.body, set(cur)))
+                if t is not True:
+                    res.append(block(st.orelse, set(cur)))
+                nxt = set()
+                alive = False
+                for c2, o2 in res:
+                    out |= o2
+                    if c2 is not None:
+                        nxt |= c2
+                        alive = True
+                cur = nxt if alive else None
+                continue
+            if isinstance(st, (ast.For, ast.While, ast.Try, ast.With)):
+                if any(isinstance(x, ast.Assign) and any(
+                        isinstance(t, ast.Name) and t.id == cursor
+                        for t in x.targets) for x in ast.walk(st)):
+                    cur = {'other'}
+        return cur, out
+    cur, out = block(body, {'same'})
+    return (cur or set()) | out
+
+
 def check_collect(repo, rep, mod):
     base = mod.cls('ContextBase')
     m = base.methods.get('collect_functions')
@@ -277,33 +374,17 @@ def check_collect(repo, rep, mod):
                          if isinstance(x, ast.Name)]
                 if len(names) == 2:
                     layer, excl = names
-        moves = [s for s in lp.body if isinstance(s, ast.Assign) and
-                 isinstance(s.targets[0], ast.Name) and
-                 s.targets[0].id == cursor]
         if ok:
-            ok = False
-            why = 'the walk must move to .parent only when the layer did ' \
-                  'not register the name exclusively'
-            for mv in moves:
-                v = mv.value
-                if isinstance(v, ast.IfExp) and excl is not None:
-                    t = model.norm(v.test)
-                    if t == excl and isinstance(v.body, ast.Constant) and \
-                            v.body.value is None and model.norm(
-                                v.orelse) == cursor + '.parent':
-                        ok = True
-                    if t == 'not ' + excl and isinstance(
-                            v.orelse, ast.Constant) and \
-                            v.orelse.value is None and model.norm(
-                                v.body) == cursor + '.parent':
-                        ok = True
-            if not moves:
-                # if is_exclusive: break ... p = p.parent
-                for s in lp.body:
-                    if isinstance(s, ast.If) and excl is not None and \
-                            model.norm(s.test) == excl and any(
-                                isinstance(x, ast.Break) for x in s.body):
-                        ok = True
+            why = 'the walk must move to .parent exactly when the layer ' \
+                  'did not register the name exclusively, and stop when ' \
+                  'it did'
+            on_excl = _walk_step(lp.body, cursor, excl, True)
+            on_open = _walk_step(lp.body, cursor, excl, False)
+            ok = excl is not None and on_excl <= {'none', 'exit'} and \
+                on_open == {'parent'}
+            if not ok:
+                why += ' (exclusive layer -> %s, other layer -> %s)' % (
+                    sorted(on_excl), sorted(on_open))
         rep.ob('R17d', m.key + '/exclusive-stops', ok, why,
                loc=mod.loc(lp))
         app = [c for s in lp.body for c in model.calls_in(s)
@@ -452,77 +533,173 @@ def check_reads_are_pure(repo, rep, mod):
     rep.floor('context lookup methods', n, 15)
 
 
+def _attr_from_param(init, pname):
+    """self.<attr> = <pname> in __init__ -> attr"""
+    for st in model.walk_shallow(init.node):
+        if isinstance(st, ast.Assign) and isinstance(
+                st.value, ast.Name) and st.value.id == pname:
+            for t in st.targets:
+                if isinstance(t, ast.Attribute) and isinstance(
+                        t.value, ast.Name) and t.value.id == 'self':
+                    return t.attr
+    return None
+
+
+def _mentions_self_attr(e, attr):
+    return any(isinstance(x, ast.Attribute) and x.attr == attr and
+               isinstance(x.value, ast.Name) and x.value.id == 'self'
+               for x in ast.walk(e))
+
+
+def _member_iterations(fnode, attr):
+    """Loops / comprehensions / map-filter calls that range over all
+    members (self.<attr>)."""
+    out = []
+    for n in ast.walk(fnode):
+        if isinstance(n, ast.For) and _mentions_self_attr(n.iter, attr):
+            out.append(n)
+        elif isinstance(n, ast.comprehension) and _mentions_self_attr(
+                n.iter, attr):
+            out.append(n)
+        elif isinstance(n, ast.Call) and model.norm(n.func) in (
+                'map', 'filter', 'any', 'all', 'itertools.chain',
+                'itertools.chain.from_iterable') and any(
+                _mentions_self_attr(a, attr) and not isinstance(
+                    a, (ast.GeneratorExp, ast.ListComp, ast.Lambda))
+                for a in n.args):
+            out.append(n)
+    return out
+
+
 def check_multi(repo, rep, mod):
     ci = mod.cls('MultiContext')
+    init = ci.methods['__init__']
+    plist = init.params()[1] if len(init.params()) > 1 else None
+    attr = _attr_from_param(init, plist) if plist else None
+    if attr is None:
+        raise AnalysisError('anchor vanished: the member list attribute of '
+                            'MultiContext')
     gf = ci.methods['get_functions']
-    loops = [n for n in model.walk_shallow(gf.node)
-             if isinstance(n, ast.For) and model.norm(n.iter) ==
-             'self._context_list']
-    ok = len(loops) == 1
+    its = _member_iterations(gf.node, attr)
+    ok = bool(its)
+    why = 'does not range over all members'
     if ok:
-        lp = loops[0]
-        upd = [c for s in lp.body for c in model.calls_in(s)
-               if isinstance(c.func, ast.Attribute) and
-               c.func.attr in ('update', 'union', 'add')]
-        flag = [s for s in lp.body for x in model.walk_shallow(s)
-                if isinstance(x, ast.Assign) and isinstance(
-                    x.value, ast.Constant) and x.value.value is True]
-        orop = [s for s in lp.body for x in model.walk_shallow(s)
-                if isinstance(x, (ast.AugAssign, ast.Assign)) and
-                'exclusive' in model.norm(x)]
-        rets = [s for s in lp.body for x in model.walk_shallow(s)
-                if isinstance(x, (ast.Return, ast.Break))]
-        ok = bool(upd) and bool(flag or orop) and not rets
+        early = [x for it in its if isinstance(it, ast.For)
+                 for st in it.body for x in ast.walk(st)
+                 if isinstance(x, (ast.Return, ast.Break))]
+        asks = [c for c in model.calls_in(gf.node)
+                if isinstance(c.func, ast.Attribute) and
+                c.func.attr == 'get_functions']
+        merges = [c for c in model.calls_in(gf.node)
+                  if isinstance(c.func, ast.Attribute) and
+                  c.func.attr in ('update', 'union', 'add', 'extend')] + [
+            x for x in ast.walk(gf.node) if isinstance(x, ast.AugAssign)
+            and isinstance(x.op, ast.BitOr)] + [
+            x for x in ast.walk(gf.node)
+            if isinstance(x, (ast.SetComp,))] + [
+            c for c in model.calls_in(gf.node)
+            if model.norm(c.func) in ('itertools.chain',
+                                      'itertools.chain.from_iterable')]
+        ors = [x for x in ast.walk(gf.node)
+               if (isinstance(x, ast.Assign) and isinstance(
+                   x.value, ast.Constant) and x.value.value is True) or
+               (isinstance(x, ast.BoolOp) and isinstance(x.op, ast.Or)) or
+               (isinstance(x, ast.AugAssign) and isinstance(
+                   x.op, ast.BitOr)) or
+               (isinstance(x, ast.Call) and model.norm(x.func) == 'any')]
+        if early:
+            ok, why = False, 'leaves the loop over the members early ' \
+                '(%s)' % model.norm(early[0])
+        elif not asks:
+            ok, why = False, 'does not ask the members'
+        elif not merges:
+            ok, why = False, 'does not merge the members\' overloads'
+        elif not ors:
+            ok, why = False, 'does not OR the members\' exclusivity'
     rep.ob('R17f', gf.key, ok,
            'MultiContext.get_functions must union the overloads of ALL '
-           'members and OR their exclusivity (one loop over '
-           'self._context_list, no early exit)', loc=mod.loc(gf.node))
-    gd = ci.methods['get_data']
-    loops = [n for n in model.walk_shallow(gd.node)
-             if isinstance(n, ast.For) and model.norm(n.iter) ==
-             'self._context_list']
-    rep.ob('R17f', gd.key, len(loops) == 1,
-           'MultiContext.get_data must look into every member, in order',
-           loc=mod.loc(gd.node))
-    init = ci.methods['__init__']
-    src = model.norm(init.node)
-    ok = 'context_list' in src and '.parent' in src and \
-        'MultiContext(parents' in src.replace(' ', '')[:10000].replace(
-            'MultiContext(parents', 'MultiContext(parents')
-    maps_all = any(
-        isinstance(c, ast.Call) and model.norm(c.func) in ('map',) and
-        len(c.args) == 2 and model.norm(c.args[1]) == 'context_list'
-        for c in ast.walk(init.node)) or any(
-        isinstance(c, (ast.GeneratorExp, ast.ListComp)) and any(
-            model.norm(g.iter) == 'context_list' for g in c.generators)
-        for c in ast.walk(init.node))
-    rep.ob('R17f', init.key, ok and maps_all,
+           'members and OR their exclusivity; it %s' % why,
+           loc=mod.loc(gf.node))
+    for meth, what in (('get_data', 'look into every member, in order'),
+                       ('__contains__', 'consider every member'),
+                       ('keys', 'consider every member'),
+                       ('delete_function', 'consider every member')):
+        m = ci.methods.get(meth)
+        if m is None:
+            raise AnalysisError('anchor vanished: MultiContext.' + meth)
+        its = _member_iterations(m.node, attr)
+        ok = bool(its)
+        if meth == 'get_data' and ok:
+            # in order: the iteration ranges over the list itself
+            it = its[0]
+            src = it.iter if isinstance(it, (ast.For, ast.comprehension)) \
+                else None
+            ok = src is None or (isinstance(src, ast.Attribute) and
+                                 src.attr == attr)
+        rep.ob('R17f', m.key, ok, 'MultiContext.%s must %s' % (meth, what),
+               loc=mod.loc(m.node))
+    # __init__: the parent is built from the parents of ALL members
+    names = {plist}
+    for st in model.walk_shallow(init.node):
+        if isinstance(st, ast.Assign) and isinstance(
+                st.targets[0], ast.Name) and any(
+                isinstance(x, ast.Name) and x.id in names
+                for x in ast.walk(st.value)):
+            names.add(st.targets[0].id)
+    all_parents = False
+    for n in ast.walk(init.node):
+        src = None
+        body = None
+        if isinstance(n, (ast.GeneratorExp, ast.ListComp, ast.SetComp)):
+            src, body = n.generators[0].iter, n
+        elif isinstance(n, ast.Call) and model.norm(n.func) in (
+                'map', 'filter') and len(n.args) == 2:
+            src, body = n.args[1], n.args[0]
+        if src is None:
+            continue
+        if isinstance(src, ast.Name) and src.id == plist and any(
+                isinstance(x, ast.Attribute) and x.attr == 'parent'
+                for x in ast.walk(body)):
+            all_parents = True
+    own = [c for c in model.calls_in(init.node)
+           if isinstance(c.func, ast.Name) and c.func.id == ci.node.name]
+    rep.ob('R17f', init.key, all_parents and bool(own),
            'the parent of a multi-context is built from the parents of '
            'ALL members (a MultiContext of parents when there are '
            'several)', loc=mod.loc(init.node))
-    for meth in ('__contains__', 'keys', 'delete_function'):
-        m = ci.methods.get(meth)
-        loops = [n for n in model.walk_shallow(m.node)
-                 if isinstance(n, ast.For) and model.norm(n.iter) ==
-                 'self._context_list']
-        rep.ob('R17f', m.key, len(loops) == 1,
-               'MultiContext.%s must consider every member' % meth,
-               loc=mod.loc(m.node))
     # LinkedContext: proxy to the linked context, own parent chain rebuilt
     lc = mod.cls('LinkedContext')
     init = lc.methods['__init__']
-    src = model.norm(init.node)
-    ok = 'linked_context.parent' in src and 'LinkedContext(parent_context, ' \
-        'linked_context.parent' in src
+    ps = init.params()
+    p_parent, p_linked = ps[1], ps[2]
+    lattr = _attr_from_param(init, p_linked)
+    if lattr is None:
+        raise AnalysisError('anchor vanished: the linked-context attribute '
+                            'of LinkedContext')
+    ok = False
+    for c in model.calls_in(init.node):
+        if isinstance(c.func, ast.Name) and c.func.id == lc.node.name:
+            has_parent = any(isinstance(a, ast.Name) and a.id == p_parent
+                             for a in c.args)
+            has_anc = any(isinstance(a, ast.Attribute) and
+                          a.attr == 'parent' and isinstance(
+                              a.value, ast.Name) and a.value.id == p_linked
+                          for a in c.args)
+            pol = norm.literal_polarity(
+                c, init.node, lambda e: isinstance(e, ast.Attribute) and
+                e.attr == 'parent' and isinstance(e.value, ast.Name) and
+                e.value.id == p_linked)
+            if has_parent and has_anc and pol is True:
+                ok = True
     rep.ob('R17f', init.key, ok,
            'a linked context\'s parent chain must be the linked context\'s '
-           'ancestors (wrapped) followed by the given parent',
-           loc=mod.loc(init.node))
-    for meth, attr in (('get_functions', 'get_functions'),
-                       ('keys', 'keys'), ('__contains__', None)):
+           'ancestors (wrapped, when it has any) followed by the given '
+           'parent', loc=mod.loc(init.node))
+    for meth in ('get_functions', 'keys', '__contains__'):
         m = lc.methods.get(meth)
-        src = model.norm(m.node)
-        rep.ob('R17f', m.key, 'self.linked_context' in src,
+        if m is None:
+            raise AnalysisError('anchor vanished: LinkedContext.' + meth)
+        rep.ob('R17f', m.key, _mentions_self_attr(m.node, lattr),
                'LinkedContext.%s must proxy to the linked context' % meth,
                loc=mod.loc(m.node))
 
